@@ -37,17 +37,22 @@ CLAIMED = {
         technique="Coq proof (structural induction over the AST) + extracted-model correspondence",
         design="4 C13"),
     "C19": dict(
-        text="Theorem: for EVERY expression tree e there is fuel f with parse f 0 (print 0 e) = Some (e, []) - the printer "
-             "(transcribed from format_with_precedence, precedences and spellings regenerated from expr.rs) followed by the "
-             "ladder parser written from msiquery.pest returns the same tree, hence the same value on every row; the "
-             "precedence-to-level map is a proof obligation over the generated table.  Text level: the implementation's "
-             "to_string() is lexed+parsed by the extracted ladder parser and compared with the built tree for every "
-             "(parent, child, side) operator pair, literal leaves and random trees; distinguishing rows are searched on "
-             "mismatch.  Partial: the query forms (SELECT/JOIN/INSERT/UPDATE/DELETE) and the lexer are covered by the "
-             "correspondence only.",
-        note="Trusted: Coq kernel, translate.py (precedence table, spellings), extraction, harness, the lexer in ExprText.v; "
-             "the ladder itself is the specification.",
-        technique="Coq proof (induction on the AST with a follow-set invariant, fuel monotonicity) + translator + correspondence",
+        text="Theorems.  Expressions: for EVERY expression tree e there is fuel f with parse f 0 (print 0 e) = Some (e, []) - the "
+             "printer (transcribed from format_with_precedence; precedences and spellings regenerated from expr.rs) followed by "
+             "the ladder parser written from msiquery.pest returns the same tree, hence the same value on every row.  Queries "
+             "(props/C19_queries.v): QueryText.query_text transcribes the five Display implementations character by character; it "
+             "is the rendering of a token list that the query grammar (a parser written from the Query*/Table*/RowList/"
+             "AssignmentList rules, using the ladder for every WHERE/ON expression) reads back as THE SAME query - same tables, "
+             "columns, literal rows, assignments, join structure, conditions - exactly for the queries the grammar can express "
+             "(identifier names, non-empty rows / assignment lists: query_roundtrip_iff).  Known finding degenerate_query_text "
+             "(empty assignment list / empty row) with proved witnesses.  Correspondence: to_string() of every (parent, child, "
+             "side) operator pair, literal leaves and random trees is lexed + parsed by the extracted ladder and compared with the "
+             "built tree (distinguishing rows searched on mismatch); to_string() of ~700 queries (select/join family, INSERT, "
+             "UPDATE, DELETE with random WHERE trees) is compared character by character with query_text.  Not proved: the "
+             "text->token lexer (validated by the correspondence).",
+        note="Trusted: Coq kernel, translate.py (precedence table, spellings), extraction, harness, the lexer in ExprText.v; the "
+             "ladder and the query parser are the specification (written from the grammar, not from the printer).",
+        technique="Coq proof (induction on ASTs / mutual induction on query trees with a follow-set invariant, fuel sufficiency) + translator + correspondence",
         design="4 C19"),
     "C07": dict(
         text="Theorems over the transcription of Category::validate and Column::is_valid_value: total for every string (incl. a "
